@@ -2,9 +2,12 @@
    Property theorems only (generated from C01.in by bin/mkprop).
    [returns_normally r]: r is a value or an error - neither a Rust panic (an index, slice, copy or
    subtraction out of range in the model's panic-capable primitives) nor exhaustion of the model's
-   fuel.  Status: the parsing entry points are covered for every byte string; the accessors of
-   accepted values are covered in Proofs/Accessors.v as far as listed below (see DESIGN.md, C01). *)
-From RtcpV Require Import Proofs.ParseTotal.
+   fuel.  [view_clean kvs]: no observation in the accessor view is the PANIC or FUEL token, i.e. every
+   accessor and iterator the view is made of (header fields, padding, SSRCs, report blocks and their
+   fields, APP name / data, BYE sources / reason, SDES chunks, their length and items with type, length,
+   value, PRIV prefix, feedback SSRCs and all five parse_fci::<F>() results with their entry iterators)
+   returned normally.  [wfb l]: the elements of l are bytes. *)
+From RtcpV Require Import Proofs.C01.
 
 (* APP, BYE, RR, SDES, SR, transport/payload feedback and unknown parsers, for every byte string *)
 Theorem C01_typed_parsers_total :
@@ -67,3 +70,22 @@ Check C01_sdes_items_inside_packet :
     post (sdes_parse d)
          (fun cs => framed 4 d /\ Forall (fun c => Forall (item_in_packet d) (ch_items c)) cs).
 Print Assumptions C01_sdes_items_inside_packet.
+
+(* every accessor of every view any typed parser accepts, for every byte string *)
+Theorem C01_accessors_of_accepted_typed_views :
+  forall (v : variant) (l : bytes) (pv : packet_view),
+    wfb l -> typed_parse v l = Ok pv -> view_clean (obs_view pv) = true.
+Proof. exact accepted_views_clean. Qed.
+Check C01_accessors_of_accepted_typed_views :
+  forall (v : variant) (l : bytes) (pv : packet_view),
+    wfb l -> typed_parse v l = Ok pv -> view_clean (obs_view pv) = true.
+Print Assumptions C01_accessors_of_accepted_typed_views.
+
+Theorem C01_accessors_through_the_generic_parser :
+  forall (l : bytes) (pv : packet_view),
+    wfb l -> packet_parse l = Ok pv -> view_clean (obs_view pv) = true.
+Proof. exact generic_views_clean. Qed.
+Check C01_accessors_through_the_generic_parser :
+  forall (l : bytes) (pv : packet_view),
+    wfb l -> packet_parse l = Ok pv -> view_clean (obs_view pv) = true.
+Print Assumptions C01_accessors_through_the_generic_parser.
